@@ -189,11 +189,19 @@ func LookupXpathFunction(
 
 var testedFunctionTable = make(map[string]bool)
 
+// testedMu guards testedFunctionTable: contexts in validation mode may run
+// concurrently.
+var testedMu sync.Mutex
+
 func markFunctionAsTested(name string) {
+	testedMu.Lock()
+	defer testedMu.Unlock()
 	testedFunctionTable[name] = true
 }
 
 func CheckAllFunctionsWereTested() error {
+	testedMu.Lock()
+	defer testedMu.Unlock()
 	for name, _ := range xpathFunctionTable {
 		if _, ok := testedFunctionTable[name]; !ok {
 			return fmt.Errorf("Function '%s' has not been tested!", name)
